@@ -160,4 +160,25 @@ theorem c11_pinned_refuted :
     (match parserInit false [" number of tasks is".toList] with | .crash .indexError => true | _ => false) = true := by
   decide
 
+/-! ### the exception of `cut_line_at_most_one` is real (known finding `time_digits_cut`)
+
+`prefix_history` covers every edition closed by a *whole* line of the prefix; the edition closed by the cut line itself
+is excluded, and rightly so: a cut inside the digits of the time that ends the end-flag line closes the edition with a
+truncated time.  Evaluated witness (compiled code — `String.replace` does not reduce in the kernel), replayed on the
+implementation by the correspondence (`tests/eponine/tripoli4/data/pertu_covariances.d.res.ceav5` cut at byte 32745). -/
+
+def wL0 : Line := " initialization time (s): 1\n".toList
+def wL1 : Line := " batch number : 10\n".toList
+def wL2 : Line := "RESULTS ARE GIVEN\n".toList
+def wCut : Line := " simulation time (s) : 2".toList
+def wFull : Line := " simulation time (s) : 27\n".toList
+def timesOf (r : Except Crash S) : List (String × List (Int × TimeVal)) :=
+  match r with | .ok s => s.times | .error _ => []
+def keysOf (r : Except Crash S) : List Int := match r with | .ok s => s.collres.map (·.1) | .error _ => []
+
+#guard timesOf (scanLines {} [wL0, wL1, wL2, wCut]) == [("simulation_time", [(10, some 2)])]
+#guard timesOf (scanLines {} [wL0, wL1, wL2, wFull]) == [("simulation_time", [(10, some 27)])]
+#guard keysOf (scanLines {} [wL0, wL1, wL2, wCut]) == [10]
+#guard keysOf (scanLines {} [wL0, wL1, wL2, wFull]) == [10]
+
 end T4Scan
